@@ -13,6 +13,7 @@
   driving amplitude/frequency.
 -/
 import Verif.Lemmas.C11
+import Verif.Lemmas.C11D
 
 namespace Verif.C11
 open Verif
@@ -418,5 +419,771 @@ theorem bias_correction_factor (n D : ℝ) (hn : 0 < n) :
   norm_num
   constructor <;> field_simp
 example : (0:ℝ) < 20 := by norm_num
+
+/-! # Deepening round D
+
+## The objective of `_fit_power_spectra` and the recovery of the generating parameters
+
+`chi2 psd n fs ps` is the sum of squares `curve_fit` is asked to minimise (and the reported
+`chi_squared`).  The optimiser itself (SciPy `trf`) is outside the model; what is proved is the
+mathematical content of "fitting a generated spectrum returns the generating parameters":
+the generating parameters are a global minimiser (value 0) and, inside the ordered box
+`0 < f_c < f_diode`, `0 ≤ α < 1`, `D > 0`, the ONLY zero of the objective. -/
+
+/-- the objective is a sum of squares -/
+theorem fit_objective_nonneg (psd : ℝ → ℝ) (n : ℝ) (fs ps : List ℝ) : 0 ≤ chi2 psd n fs ps :=
+  chi2_nonneg' psd n fs ps
+
+/-- it vanishes exactly when the candidate spectrum passes through every data point -/
+theorem fit_objective_zero_iff (psd : ℝ → ℝ) (n : ℝ) (hn : 0 < n) (fs ps : List ℝ)
+    (hp : ∀ x ∈ fs.zip ps, x.2 ≠ 0) :
+    chi2 psd n fs ps = 0 ↔ ∀ x ∈ fs.zip ps, 1 / psd x.1 = 1 / x.2 :=
+  chi2_zero_iff' psd n hn fs ps hp
+example : (0:ℝ) < 20 ∧ ∀ x ∈ [(1:ℝ), 2].zip [(3:ℝ), 4], x.2 ≠ 0 := by
+  refine ⟨by norm_num, ?_⟩
+  intro x hx
+  simp at hx
+  rcases hx with rfl | rfl <;> norm_num
+
+/-- on a noise-free spectrum `P_k = psd₀(f_k)` the generating model is a global minimiser of the
+    objective, with value 0 -/
+theorem fit_objective_minimised_by_generating (psd₀ psd : ℝ → ℝ) (n : ℝ) (hn : 0 < n)
+    (fs : List ℝ) (h0 : ∀ f ∈ fs, psd₀ f ≠ 0) :
+    chi2 psd₀ n fs (fs.map psd₀) = 0 ∧ chi2 psd₀ n fs (fs.map psd₀) ≤ chi2 psd n fs (fs.map psd₀) := by
+  have hz : chi2 psd₀ n fs (fs.map psd₀) = 0 := by
+    rw [chi2_zero_iff' psd₀ n hn]
+    · intro x hx
+      rw [(zip_map_snd psd₀ fs x hx).2]
+    · intro x hx
+      rw [(zip_map_snd psd₀ fs x hx).2]
+      exact h0 _ (zip_map_snd psd₀ fs x hx).1
+  exact ⟨hz, by rw [hz]; exact chi2_nonneg' ..⟩
+example : (0:ℝ) < 20 ∧ ∀ f ∈ [(1:ℝ), 2], lorentzDiodePsd f 1 1 2 (1 / 2) ≠ 0 :=
+  ⟨by norm_num, fun f _ => (ld_pos f 1 1 2 (1 / 2) one_pos one_pos two_pos).ne'⟩
+
+/-- the spectrum model the fit evaluates for a non-hydrodynamic model with a free diode filter is
+    Lorentzian × `g_diode` (this is the function the `c11.psd` / `c11.chi2` ops run) -/
+theorem spectrum_model_lorentz_diode (m : Mdl ℝ) (hh : m.o.hydro = false) (f fc D fd al : ℝ) :
+    m.psd .diode f fc D [fd, al] = .ok (lorentzDiodePsd f fc D fd al) ∧
+    m.psd (.fixed (some fd) (some al)) f fc D [] = .ok (lorentzDiodePsd f fc D fd al) ∧
+    m.psd (.fixed (some fd) none) f fc D [al] = .ok (lorentzDiodePsd f fc D fd al) ∧
+    m.psd (.fixed none (some al)) f fc D [fd] = .ok (lorentzDiodePsd f fc D fd al) ∧
+    m.psd (.fixed none none) f fc D [fd, al] = .ok (lorentzDiodePsd f fc D fd al) ∧
+    m.psd .noFilter f fc D [] = .ok (lorentzianPsd f fc D * 1) := by
+  have e1 : (Filt.fixed (some fd) (some al)).eval f [] = .ok (gDiode f fd al) := rfl
+  have e2 : (Filt.fixed (some fd) none).eval f [al] = .ok (gDiode f fd al) := rfl
+  have e3 : (Filt.fixed none (some al)).eval f [fd] = .ok (gDiode f fd al) := rfl
+  have e4 : (Filt.fixed none none).eval f [fd, al] = .ok (gDiode f fd al) := rfl
+  refine ⟨by simp [Mdl.psd, Filt.eval, Mdl.physicalPsd, hh, lorentzDiodePsd], ?_, ?_, ?_, ?_,
+    by simp [Mdl.psd, Filt.eval, Mdl.physicalPsd, hh, one_lit]⟩
+  · unfold Mdl.psd; rw [e1]; simp [Mdl.physicalPsd, hh, lorentzDiodePsd]
+  · unfold Mdl.psd; rw [e2]; simp [Mdl.physicalPsd, hh, lorentzDiodePsd]
+  · unfold Mdl.psd; rw [e3]; simp [Mdl.physicalPsd, hh, lorentzDiodePsd]
+  · unfold Mdl.psd; rw [e4]; simp [Mdl.physicalPsd, hh, lorentzDiodePsd]
+example : (build oBulk).o.hydro = false := rfl
+
+/-- RECOVERY (Lorentzian × diode): on a noise-free spectrum containing four frequencies with
+    distinct squares, every zero of the objective inside `0 < f_c' < f_diode'`, `0 ≤ α'`, `D' > 0`
+    is the generating `(f_c, D, f_diode, α)` (which satisfies `f_c < f_diode`, `α < 1`: the
+    property's conditioning box has `f_c ≤ 0.3 f_diode`, `α ≤ 0.8`) -/
+theorem fit_recovery_unique_lorentz_diode (fs : List ℝ)
+    (n fc D fd al fc' D' fd' al' f1 f2 f3 f4 : ℝ) (hn : 0 < n)
+    (hfc : 0 < fc) (hord : fc < fd) (hD : 0 < D) (hal : 0 ≤ al) (hal1 : al < 1)
+    (hfc' : 0 < fc') (hord' : fc' < fd') (hal' : 0 ≤ al')
+    (m1 : f1 ∈ fs) (m2 : f2 ∈ fs) (m3 : f3 ∈ fs) (m4 : f4 ∈ fs)
+    (h12 : f1 ^ 2 ≠ f2 ^ 2) (h13 : f1 ^ 2 ≠ f3 ^ 2) (h14 : f1 ^ 2 ≠ f4 ^ 2) (h23 : f2 ^ 2 ≠ f3 ^ 2)
+    (h24 : f2 ^ 2 ≠ f4 ^ 2) (h34 : f3 ^ 2 ≠ f4 ^ 2)
+    (hchi : chi2 (fun f => lorentzDiodePsd f fc' D' fd' al') n fs
+      (fs.map fun f => lorentzDiodePsd f fc D fd al) = 0) :
+    fc' = fc ∧ D' = D ∧ fd' = fd ∧ al' = al := by
+  have hfd : 0 < fd := by linarith
+  have hpt := (chi2_zero_iff' _ n hn fs _ (by
+    intro x hx
+    rw [(zip_map_snd _ fs x hx).2]
+    exact (ld_pos _ fc D fd al hfc hD hfd).ne')).mp hchi
+  have key : ∀ f ∈ fs, lorentzDiodePsd f fc' D' fd' al' = lorentzDiodePsd f fc D fd al := by
+    intro f hf
+    have := hpt _ (mem_zip_map (fun f => lorentzDiodePsd f fc D fd al) fs f hf)
+    simpa using this
+  exact ld_identifiable' fc D fd al fc' D' fd' al' f1 f2 f3 f4 hfc hord hD hal hal1 hfc' hord' hal'
+    h12 h13 h14 h23 h24 h34 (key f1 m1) (key f2 m2) (key f3 m3) (key f4 m4)
+example : chi2 (fun f : ℝ => lorentzDiodePsd f 1 1 2 (1 / 2)) 20 [0, 1, 2, 3]
+    ([0, 1, 2, 3].map fun f : ℝ => lorentzDiodePsd f 1 1 2 (1 / 2)) = 0 :=
+  (fit_objective_minimised_by_generating _ (fun f => lorentzDiodePsd f 1 1 2 (1 / 2)) 20 (by norm_num) _
+    (fun f _ => (ld_pos f 1 1 2 (1 / 2) one_pos one_pos two_pos).ne')).1
+
+/-- the ordering `f_c' < f_diode'` in the previous theorem is NECESSARY: the swapped twin
+    `(f_c, D, f_diode, α) ↦ (f_diode, D·f_d²/f_c², f_c, α·f_c/f_d)` is a second global minimiser of
+    the same objective (it has `f_c' > f_diode'`, outside the conditioning box) -/
+theorem fit_twin_minimiser (fs : List ℝ) (n fc D fd al : ℝ) (hn : 0 < n)
+    (hfc : 0 < fc) (hD : 0 < D) (hfd : 0 < fd) :
+    chi2 (fun f => lorentzDiodePsd f fd (D * fd ^ 2 / fc ^ 2) fc (al * fc / fd)) n fs
+      (fs.map fun f => lorentzDiodePsd f fc D fd al) = 0 := by
+  have : (fun f => lorentzDiodePsd f fd (D * fd ^ 2 / fc ^ 2) fc (al * fc / fd))
+      = fun f => lorentzDiodePsd f fc D fd al := by
+    funext f; exact ld_twin' f fc D fd al hfc.ne' hfd.ne'
+  rw [this]
+  exact (fit_objective_minimised_by_generating _ (fun f => lorentzDiodePsd f fc D fd al) n hn fs
+    (fun f _ => (ld_pos f fc D fd al hfc hD hfd).ne')).1
+example : (0:ℝ) < 20 ∧ (0:ℝ) < 1 ∧ (0:ℝ) < 2 := by norm_num
+
+/-- RECOVERY (plain Lorentzian, fast sensor): two frequencies with distinct squares suffice -/
+theorem fit_recovery_unique_lorentzian (fs : List ℝ) (n fc D fc' D' f1 f2 : ℝ) (hn : 0 < n)
+    (hfc : 0 < fc) (hD : 0 < D) (hfc' : 0 < fc') (m1 : f1 ∈ fs) (m2 : f2 ∈ fs)
+    (h12 : f1 ^ 2 ≠ f2 ^ 2)
+    (hchi : chi2 (fun f => lorentzianPsd f fc' D') n fs (fs.map fun f => lorentzianPsd f fc D) = 0) :
+    fc' = fc ∧ D' = D := by
+  have hpos : ∀ f, 0 < lorentzianPsd f fc D := by
+    intro f
+    simp only [lorentzianPsd, RealLike.pi]
+    have := Real.pi_pos
+    have : 0 < f * f + fc * fc := add_pos_of_nonneg_of_pos (mul_self_nonneg f) (mul_pos hfc hfc)
+    positivity
+  have hpt := (chi2_zero_iff' _ n hn fs _ (by
+    intro x hx
+    rw [(zip_map_snd _ fs x hx).2]
+    exact (hpos _).ne')).mp hchi
+  have key : ∀ f ∈ fs, lorentzianPsd f fc' D' = lorentzianPsd f fc D := by
+    intro f hf
+    have := hpt _ (mem_zip_map (fun f => lorentzianPsd f fc D) fs f hf)
+    simpa using this
+  exact lorentzian_identifiable' fc D fc' D' f1 f2 hfc hfc' hD.ne' h12 (key f1 m1) (key f2 m2)
+example : chi2 (fun f : ℝ => lorentzianPsd f 1 1) 20 [0, 1]
+    ([0, 1].map fun f : ℝ => lorentzianPsd f 1 1) = 0 ∧ (0:ℝ) ^ 2 ≠ 1 ^ 2 := by
+  refine ⟨(fit_objective_minimised_by_generating (fun f : ℝ => lorentzianPsd f 1 1)
+    (fun f => lorentzianPsd f 1 1) 20 (by norm_num) _ ?_).1,
+    by norm_num⟩
+  intro f _
+  simp only [lorentzianPsd, RealLike.pi]
+  have := Real.pi_pos
+  have : 0 < f * f + 1 * 1 := add_pos_of_nonneg_of_pos (mul_self_nonneg f) (by norm_num)
+  positivity
+
+/-! ## The driving-peak estimator after the FFT -/
+
+/-- the three-point fit (what `np.polyfit(·, ·, 2)` returns on three points) reproduces a parabola -/
+theorem driving_peak_parabola_exact (x0 x1 x2 A B C : ℝ) (h01 : x0 ≠ x1) (h12 : x1 ≠ x2)
+    (h02 : x0 ≠ x2) :
+    parabola3 x0 x1 x2 (A * x0 ^ 2 + B * x0 + C) (A * x1 ^ 2 + B * x1 + C) (A * x2 ^ 2 + B * x2 + C)
+      = (A, B, C) := parabola3_exact' x0 x1 x2 A B C h01 h12 h02
+example : (1:ℝ) ≠ 2 ∧ (2:ℝ) ≠ 3 ∧ (1:ℝ) ≠ 3 := by norm_num
+
+/-- RECOVERY: when the three magnitudes around the peak lie on a Gaussian
+    `K·exp(−½((f − μ)/σ)²)` (the transform of the Gaussian-windowed sinusoid) with centre inside
+    the search range, the estimator answers, returns the centre `μ` exactly and the amplitude
+    `K·σ·√(2π)·δ` (for the window of the code `K = A·s√(2π)/2`, `σ = rate/(2π s)`, `δ = 2/rate`,
+    i.e. the amplitude `A` of the sinusoid) -/
+theorem driving_peak_gaussian_recovery (m : Nat)
+    (x0 x1 x2 K mu sigma guess search delta npts tp sw sw2 : ℝ)
+    (h01 : x0 ≠ x1) (h12 : x1 ≠ x2) (h02 : x0 ≠ x2) (hK : 0 < K) (hs : 0 < sigma)
+    (hlo : guess - search ≤ mu) (hhi : mu ≤ guess + search) :
+    ∃ r, drivePost m x0 x1 x2 (K * Real.exp (-(1 / 2) * ((x0 - mu) / sigma) ^ 2))
+        (K * Real.exp (-(1 / 2) * ((x1 - mu) / sigma) ^ 2))
+        (K * Real.exp (-(1 / 2) * ((x2 - mu) / sigma) ^ 2)) guess search delta npts tp sw sw2 = .ok r ∧
+      r.freq = mu ∧ r.amp = K * (sigma * Real.sqrt (2 * Real.pi)) * delta :=
+  drivePost_gaussian' m x0 x1 x2 K mu sigma guess search delta npts tp sw sw2 h01 h12 h02 hK hs hlo hhi
+example : (1:ℝ) ≠ 2 ∧ (2:ℝ) ≠ 3 ∧ (1:ℝ) ≠ 3 ∧ (0:ℝ) < 1 ∧ (2:ℝ) - 5 ≤ 2 ∧ (2:ℝ) ≤ 2 + 5 := by norm_num
+
+/-- the constants of the code's window: `K·σ·√(2π)·δ = A` for `K = A/2·s·√(2π)`, `σ = rate/(2π s)`,
+    `δ = 2/rate` (`s` = window standard deviation in samples) -/
+theorem driving_peak_window_constants (A s rate : ℝ) (hs : 0 < s) (hr : 0 < rate) :
+    (A / 2 * (s * Real.sqrt (2 * Real.pi))) * (rate / (2 * Real.pi * s) * Real.sqrt (2 * Real.pi))
+      * (2 / rate) = A := by
+  have hpi := Real.pi_pos
+  have h2 : Real.sqrt (2 * Real.pi) * Real.sqrt (2 * Real.pi) = 2 * Real.pi :=
+    Real.mul_self_sqrt (by positivity)
+  field_simp
+  linear_combination (A) * h2
+example : (0:ℝ) < 1 := one_pos
+
+/-- SOUNDNESS of an answer: whenever the estimator answers, the fitted parabola opens downwards,
+    the returned frequency is its vertex and lies inside the search range
+    `[guess − f_search, guess + f_search]`, the amplitude and its error follow the stated formulas
+    (`amp_std = ENBW·√|var − amp²/2|/√N`) -/
+theorem driving_peak_answer_sound (m : Nat)
+    (x0 x1 x2 a0 a1 a2 guess search delta npts tp sw sw2 : ℝ) (r : DriveEst ℝ)
+    (h : drivePost m x0 x1 x2 a0 a1 a2 guess search delta npts tp sw sw2 = .ok r) :
+    (r.p0, r.p1, r.p2) = parabola3 x0 x1 x2 (Real.log a0) (Real.log a1) (Real.log a2) ∧
+    r.p0 < 0 ∧ r.freq = -r.p1 / (2 * r.p0) ∧ guess - search ≤ r.freq ∧ r.freq ≤ guess + search ∧
+    r.amp = Real.exp (r.p2 - 0.25 * (r.p1 * r.p1) / r.p0 + 0.5 * Real.log (-Real.pi / r.p0)) * delta ∧
+    r.ampStd = npts * sw2 / (sw * sw) * Real.sqrt |tp - r.amp * r.amp / 2| / Real.sqrt npts ∧
+    r.maxIdx = m :=
+  drivePost_ok' m x0 x1 x2 a0 a1 a2 guess search delta npts tp sw sw2 r h
+example : ∃ r, drivePost 1 1 2 3 (1 * Real.exp (-(1 / 2) * ((1 - 2) / 1) ^ 2))
+    (1 * Real.exp (-(1 / 2) * ((2 - 2) / 1) ^ 2)) (1 * Real.exp (-(1 / 2) * ((3 - 2) / 1) ^ 2))
+    2 5 1 1 1 1 1 = .ok r :=
+  (driving_peak_gaussian_recovery 1 1 2 3 1 2 1 2 5 1 1 1 1 1 (by norm_num) (by norm_num) (by norm_num)
+    one_pos one_pos (by norm_num) (by norm_num)).imp fun _ h => h.1
+
+/-- INDEX BOOKKEEPING of the peak search (`np.where(mask)[0][0] + np.argmax(mags[mask])`): on a
+    sorted frequency axis (what `np.fft.rfftfreq` returns) the peak bin lies inside the search
+    range, carries the largest magnitude of the range, and is the first bin that does -/
+theorem driving_peak_bin_is_argmax (freqs mags : List ℝ) (g s : ℝ) (m : Nat)
+    (hs : freqs.Pairwise (· ≤ ·)) (hlen : mags.length = freqs.length)
+    (h : peakBin freqs mags g s = some m) :
+    ∃ hm : m < mags.length, (searchMask freqs g s)[m]? = some true ∧
+      (∀ j (hj : j < mags.length), (searchMask freqs g s)[j]? = some true → mags[j] ≤ mags[m]) ∧
+      (∀ j (hj : j < mags.length), j < m → (searchMask freqs g s)[j]? = some true → mags[j] < mags[m]) :=
+  peakBin_spec' freqs mags g s m hs hlen h
+example : ([1, 2, 3, 4] : List ℝ).Pairwise (· ≤ ·) ∧ ([5, 7, 6, 9] : List ℝ).length = ([1, 2, 3, 4] : List ℝ).length ∧
+    peakBin ([1, 2, 3, 4] : List ℝ) [5, 7, 6, 9] 2.5 1.2 = some 1 := by
+  refine ⟨by simp [List.pairwise_cons]; norm_num, rfl, ?_⟩
+  have hm : searchMask ([1, 2, 3, 4] : List ℝ) 2.5 1.2 = [false, true, true, false] := by
+    simp [searchMask, RealLike.lt]; norm_num
+  have hf : firstTrue [false, true, true, false] = some 1 := rfl
+  have hsel : maskSelect ([5, 7, 6, 9] : List ℝ) [false, true, true, false] = [7, 6] := rfl
+  have ha : argmax ([7, 6] : List ℝ) = 0 := by
+    simp [argmax, argmaxGo, RealLike.lt]; norm_num
+  simp only [peakBin, hm, hf, hsel, ha, Option.map_some]
+
+/-- COMPOSITION: an answer of the whole estimator (`c11.drive`) is the answer of `drivePost` on the
+    bins `m−1, m, m+1` around the peak bin `m ≥ 1`; the theorems about `drivePost` and
+    `peakBin` therefore speak about every answer of `estimateDrive` -/
+theorem driving_estimator_decomposes (freqs mags : List ℝ) (g s delta npts tp sw sw2 : ℝ)
+    (r : DriveEst ℝ) (h : estimateDrive freqs mags g s delta npts tp sw sw2 = .ok r) :
+    ∃ m x0 x1 x2 a0 a1 a2, peakBin freqs mags g s = some m ∧ 0 < m ∧
+      freqs[m - 1]? = some x0 ∧ freqs[m]? = some x1 ∧ freqs[m + 1]? = some x2 ∧
+      mags[m - 1]? = some a0 ∧ mags[m]? = some a1 ∧ mags[m + 1]? = some a2 ∧
+      drivePost m x0 x1 x2 a0 a1 a2 g s delta npts tp sw sw2 = .ok r :=
+  estimateDrive_ok' freqs mags g s delta npts tp sw sw2 r h
+
+/-! ## Argument validation of `fit_power_spectrum` -/
+
+/-- a call is accepted exactly when the spectrum has at least 4 points, the loss function is one of
+    the two documented ones, bias correction is not combined with the robust loss, and the
+    analytical fit range is not empty -/
+theorem fit_validation_iff (npts nAnl : Nat) (loss : Loss) (bias : Bool) :
+    fitValidate npts loss bias nAnl = none ↔
+      (4 ≤ npts ∧ loss ≠ .other ∧ ¬(bias = true ∧ loss = .lorentzian) ∧ 1 ≤ nAnl) := by
+  unfold fitValidate
+  by_cases h1 : npts < 4 <;> by_cases h2 : nAnl < 1 <;> cases loss <;> cases bias <;> simp [h1, h2] <;> omega
+
+/-- which error, in the order of the code: too few points (RuntimeError) before the unknown loss
+    (ValueError) before bias + robust loss (RuntimeError) before the empty analytical range -/
+theorem fit_validation_errors (npts nAnl : Nat) (loss : Loss) (bias : Bool) :
+    (npts < 4 → fitValidate npts loss bias nAnl = some .runtime) ∧
+    (4 ≤ npts → loss = .other → fitValidate npts loss bias nAnl = some .value) ∧
+    (4 ≤ npts → loss = .lorentzian → bias = true → fitValidate npts loss bias nAnl = some .runtime) ∧
+    (4 ≤ npts → loss ≠ .other → ¬(bias = true ∧ loss = .lorentzian) → nAnl = 0 →
+      fitValidate npts loss bias nAnl = some .runtime) := by
+  unfold fitValidate
+  by_cases h1 : npts < 4 <;> by_cases h2 : nAnl < 1 <;> cases loss <;> cases bias <;> simp [h1, h2] <;> omega
+example : (3 : Nat) < 4 ∧ (4 : Nat) ≤ 4 ∧ Loss.gaussian ≠ Loss.other := by decide
+
+/-! ## The hypotheses of the error-propagation theorems are ESTABLISHED by the constructor -/
+
+/-- Brenner's axial correction is positive for every bead that does not touch the surface -/
+theorem brenner_correction_pos (h : ℝ) (h0 : 0 ≤ h) (h1 : h < 1) : 0 < brennerSpec h :=
+  brennerSpec_pos' h h0 h1
+example : (0:ℝ) ≤ 1 / 2 ∧ (1:ℝ) / 2 < 1 := by norm_num
+
+/-- … and `h < 1` is necessary: at contact (`l = R`, which the constructor accepts) the denominator
+    of Brenner's factor is exactly zero -/
+theorem brenner_singular_at_contact :
+    (1:ℝ) - 9 / 8 * 1 + 1 / 2 * 1 ^ 3 - 57 / 100 * 1 ^ 4 + 1 / 5 * 1 ^ 5 + 7 / 200 * 1 ^ 11
+      - 1 / 25 * 1 ^ 12 = 0 ∧ brennerSpec 1 = 0 := by
+  refine ⟨brenner_den_contact, ?_⟩
+  unfold brennerSpec
+  rw [brenner_den_contact]; simp
+
+/-- every model the constructor accepts (an axial one not exactly at contact) has a positive
+    corrected drag, hence `k_BT/γ > 0`: the hypothesis of `err_Rd_is_propagation` -/
+theorem constructed_model_drag_pos (o : Opts ℝ) (m : Mdl ℝ) (hm : mkModel o = .ok m)
+    (hax : ∀ l, o.hydro = false → o.axial = true → o.dist = some l → o.d / 2 < l) :
+    0 < m.drag ∧ 0 < kT m.o.temp / m.drag := constructed_drag_pos' o m hm hax
+example : mkModel oBrenner = .ok (build oBrenner) ∧
+    ∀ l, oBrenner.hydro = false → oBrenner.axial = true → oBrenner.dist = some l → oBrenner.d / 2 < l := by
+  refine ⟨oBrenner_ok, ?_⟩
+  intro l _ _ hl
+  have : l = 2 := by simpa [oBrenner, oBulk] using hl.symm
+  rw [this]; simp [oBrenner, oBulk]; norm_num
+
+/-- Gaussian error propagation for every constructed model, without side conditions on the model:
+    for `f_c > 0`, `D > 0` the reported errors are `|∂κ/∂f_c|·σ_fc` and `|∂R_d/∂D|·σ_D`, and
+    `κ > 0` -/
+theorem error_propagation_constructed (o : Opts ℝ) (m : Mdl ℝ) (hm : mkModel o = .ok m)
+    (hax : ∀ l, o.hydro = false → o.axial = true → o.dist = some l → o.d / 2 < l)
+    (fc D sfc sD : ℝ) (hfc : 0 < fc) (hD : 0 < D) :
+    HasDerivAt (fun x => (passiveResults m x D sfc sD).kappa)
+        ((passiveResults m fc D sfc sD).kappa / fc) fc ∧
+    HasDerivAt (fun x => (passiveResults m fc x sfc sD).rd)
+        (-((passiveResults m fc D sfc sD).rd / (2 * D))) D ∧
+    0 < (passiveResults m fc D sfc sD).kappa ∧
+    (passiveResults m fc D sfc sD).errKappa = |(passiveResults m fc D sfc sD).kappa / fc| * sfc ∧
+    (passiveResults m fc D sfc sD).errRd = |-((passiveResults m fc D sfc sD).rd / (2 * D))| * sD := by
+  obtain ⟨hdrag, hc⟩ := constructed_drag_pos' o m hm hax
+  obtain ⟨h1, h2⟩ := err_kappa_is_propagation m fc D sfc sD hfc.ne'
+  obtain ⟨h3, h4⟩ := err_Rd_is_propagation m fc D sfc sD hD hc
+  have hk : 0 < (passiveResults m fc D sfc sD).kappa := by
+    have := passive_kappa_SI m fc D sfc sD
+    have hpos : 0 < 2 * Real.pi * m.drag * fc := by have := Real.pi_pos; positivity
+    nlinarith
+  refine ⟨h1, h3, hk, ?_, h4⟩
+  rw [h2, abs_of_pos (div_pos hk hfc)]
+example : (0:ℝ) < 1 := one_pos
+
+/-- the function of frequency the `c11.chi2` op sums over is, for a non-hydrodynamic model with a
+    free diode filter, the Lorentzian × diode spectrum -/
+theorem psdOr_lorentz_diode (m : Mdl ℝ) (hh : m.o.hydro = false) (fc D fd al nan : ℝ) :
+    m.psdOr .diode fc D [fd, al] nan = fun f => lorentzDiodePsd f fc D fd al := by
+  funext f
+  simp [Mdl.psdOr, (spectrum_model_lorentz_diode m hh f fc D fd al).1]
+example : (build oBulk).o.hydro = false := rfl
+
+/-- RECOVERY, stated on the model's own evaluation path (`Mdl.psd` through `psdOr`, what the
+    `c11.chi2` op runs against `chi_squared_per_deg` of the code): for a constructed non-hydrodynamic
+    model, a spectrum generated with `(f_c, D, f_diode, α)` inside the ordered box is fitted with
+    objective value 0 by these parameters and by no other parameters of the ordered box -/
+theorem fit_recovery_unique_model (m : Mdl ℝ) (hh : m.o.hydro = false) (fs : List ℝ)
+    (n fc D fd al fc' D' fd' al' f1 f2 f3 f4 nan : ℝ) (hn : 0 < n)
+    (hfc : 0 < fc) (hord : fc < fd) (hD : 0 < D) (hal : 0 ≤ al) (hal1 : al < 1)
+    (hfc' : 0 < fc') (hord' : fc' < fd') (hal' : 0 ≤ al')
+    (m1 : f1 ∈ fs) (m2 : f2 ∈ fs) (m3 : f3 ∈ fs) (m4 : f4 ∈ fs)
+    (h12 : f1 ^ 2 ≠ f2 ^ 2) (h13 : f1 ^ 2 ≠ f3 ^ 2) (h14 : f1 ^ 2 ≠ f4 ^ 2) (h23 : f2 ^ 2 ≠ f3 ^ 2)
+    (h24 : f2 ^ 2 ≠ f4 ^ 2) (h34 : f3 ^ 2 ≠ f4 ^ 2) :
+    chi2 (m.psdOr .diode fc D [fd, al] nan) n fs (fs.map (m.psdOr .diode fc D [fd, al] nan)) = 0 ∧
+    (chi2 (m.psdOr .diode fc' D' [fd', al'] nan) n fs (fs.map (m.psdOr .diode fc D [fd, al] nan)) = 0 →
+      fc' = fc ∧ D' = D ∧ fd' = fd ∧ al' = al) := by
+  rw [psdOr_lorentz_diode m hh, psdOr_lorentz_diode m hh]
+  have hfd : 0 < fd := by linarith
+  refine ⟨(fit_objective_minimised_by_generating _ (fun f => lorentzDiodePsd f fc D fd al) n hn fs
+    (fun f _ => (ld_pos f fc D fd al hfc hD hfd).ne')).1, ?_⟩
+  intro hchi
+  exact fit_recovery_unique_lorentz_diode fs n fc D fd al fc' D' fd' al' f1 f2 f3 f4 hn hfc hord hD hal
+    hal1 hfc' hord' hal' m1 m2 m3 m4 h12 h13 h14 h23 h24 h34 hchi
+example : (build oBulk).o.hydro = false ∧ (0:ℝ) ∈ [(0:ℝ), 1, 2, 3] ∧ (0:ℝ) ^ 2 ≠ 1 ^ 2 := by
+  refine ⟨rfl, by simp, by norm_num⟩
+
+/-- `DrivenPower.determine_power_output` takes the largest power density of the spectrum around
+    the driving peak (`np.argmax`) -/
+theorem driven_power_peak_is_max (powers : List ℝ) (p : ℝ) (h : peakPower powers = some p) :
+    p ∈ powers ∧ ∀ x ∈ powers, x ≤ p := by
+  unfold peakPower at h
+  have hne : powers ≠ [] := by
+    intro h0; rw [h0] at h; simp at h
+  obtain ⟨hlt, hmax, -⟩ := argmax_spec powers hne
+  rw [List.getElem?_eq_getElem hlt] at h
+  injection h with h
+  subst h
+  exact ⟨List.getElem_mem _, hmax⟩
+example : peakPower ([1, 3, 2] : List ℝ) = some 3 := by
+  have : argmax ([1, 3, 2] : List ℝ) = 1 := by
+    simp [argmax, argmaxGo, RealLike.lt]; norm_num
+  simp [peakPower, this]
+
+/-! ## Start values and bounds handed to the optimiser -/
+
+/-- COMPOSITION with the routing: the filter contributes exactly as many fitted parameters as the
+    routing of `FixedDiodeModel.__call__` expects, so the parameter vector built by
+    `fit_power_spectrum` (`[f_c, D, *initial_values]`) is always routed without a `ValueError` -/
+theorem fit_parameter_vector_is_routable (fd al : Option ℝ) (rate : ℝ) :
+    ((Filt.fixed fd al).fittedParams rate).length = freeCount [fd, al] ∧
+    ∃ r, route [fd, al] (((Filt.fixed fd al).fittedParams rate).map (·.1)) = some r := by
+  cases fd <;> cases al <;> simp [Filt.fittedParams, diodeParams, freeCount, route, noneIdx]
+
+/-- the generating diode parameters of the property's box lie inside the bounds the optimiser is
+    given (`1 ≤ f_diode ≤ rate/2`, `0 ≤ α ≤ 1`), whichever of them are free -/
+theorem generating_parameters_within_bounds (fd al rate : ℝ) (h1 : 1 ≤ fd) (h2 : fd ≤ rate / 2)
+    (h3 : 0 ≤ al) (h4 : al ≤ 1) :
+    (Filt.diode.fittedParams rate).map (fun b => (b.2.1, b.2.2)) = [(1, rate / 2), (0, 1)] ∧
+    ((Filt.fixed none none).fittedParams rate).map (fun b => (b.2.1, b.2.2)) = [(1, rate / 2), (0, 1)] ∧
+    ((Filt.fixed (some fd) none).fittedParams rate).map (fun b => (b.2.1, b.2.2)) = [(0, 1)] ∧
+    ((Filt.fixed none (some al)).fittedParams rate).map (fun b => (b.2.1, b.2.2)) = [(1, rate / 2)] ∧
+    ((Filt.fixed (some fd) (some al)).fittedParams rate) = [] ∧
+    (1 ≤ fd ∧ fd ≤ rate / 2) ∧ (0 ≤ al ∧ al ≤ 1) := by
+  refine ⟨?_, ?_, ?_, ?_, ?_, ⟨h1, h2⟩, ⟨h3, h4⟩⟩ <;>
+    simp [Filt.fittedParams, diodeParams] <;> norm_num
+example : (1:ℝ) ≤ 14000 ∧ (14000:ℝ) ≤ 78125 / 2 ∧ (0:ℝ) ≤ 0.4 ∧ (0.4:ℝ) ≤ 1 := by norm_num
+
+/-- … and so does the swapped twin of `fit_twin_minimiser` (as soon as `f_c ≥ 1 Hz`): the bounds
+    do not remove the second global minimiser of the objective; which of the two the optimiser
+    reaches is decided by its start point (analytical `f_c`, `f_diode = 14 kHz`) — exploration -/
+theorem twin_within_bounds (fc fd al rate : ℝ) (h1 : 1 ≤ fc) (hord : fc < fd) (h2 : fd ≤ rate / 2)
+    (h3 : 0 ≤ al) (h4 : al ≤ 1) :
+    (1 ≤ fc ∧ fc ≤ rate / 2) ∧ (0 ≤ al * fc / fd ∧ al * fc / fd ≤ 1) := by
+  have hfd : 0 < fd := by linarith
+  refine ⟨⟨h1, by linarith⟩, by positivity, ?_⟩
+  rw [div_le_one hfd]
+  nlinarith
+example : (1:ℝ) ≤ 1000 ∧ (1000:ℝ) < 14000 ∧ (14000:ℝ) ≤ 78125 / 2 ∧ (0:ℝ) ≤ 0.4 ∧ (0.4:ℝ) ≤ 1 := by norm_num
+
+/-- FULL STRENGTH of `analytic_lorentzian_exact`: the determinant hypothesis is discharged — on a
+    noise-free Lorentzian `P_k = 1/(a₀ + b₀ f_k²)` sampled at (at least) two frequencies with
+    different squares the closed form returns exactly `(a₀, b₀)` -/
+theorem analytic_lorentzian_exact_of_two_frequencies (fs ps : List Rat) (a0 b0 : Rat)
+    (hP : List.Forall₂ (fun f P => a0 + b0 * f ^ 2 ≠ 0 ∧ P = 1 / (a0 + b0 * f ^ 2)) fs ps)
+    (i j : Nat) (hij : i < j) (hjf : j < fs.length) (hf : fs[i] ^ 2 ≠ fs[j] ^ 2) :
+    analyticalLorentzian fs ps = (a0, b0) := by
+  have hlen : fs.length = ps.length := hP.length_eq
+  have hjp : j < ps.length := by omega
+  have hne : ∀ k (hk : k < fs.length), ps[k]'(by omega) ≠ 0 := by
+    intro k hk
+    have hmem : (fs[k], ps[k]'(by omega)) ∈ fs.zip ps := by
+      rw [List.mem_iff_getElem]
+      exact ⟨k, by simp; omega, by simp⟩
+    have := (List.forall₂_iff_zip.mp hP).2 hmem
+    rw [this.2]
+    exact one_div_ne_zero this.1
+  exact analytic_lorentzian_exact fs ps a0 b0 hP
+    (anlDet_pos_of_two_frequencies fs ps i j hij hjf hjp (hne i (by omega)) (hne j hjf) hf).ne'
+example : analyticalLorentzian [0, 1, 2] [1, 1 / 2, 1 / 5] = (1, 1) :=
+  analytic_lorentzian_exact_of_two_frequencies _ _ 1 1
+    (.cons ⟨by norm_num, by norm_num⟩ (.cons ⟨by norm_num, by norm_num⟩
+      (.cons ⟨by norm_num, by norm_num⟩ .nil))) 0 1 (by decide) (by decide) (by norm_num)
+
+/-- RECOVERY (active calibration): if the peak of the detector spectrum is what the model predicts
+    for a sensor with displacement sensitivity `R₀` — thermal background plus `P_theory/(R₀²·Δf)` —
+    the reported `R_d` is `R₀`, the measured drag is `k_BT/(R₀²D)` and `κ = 2π f_c k_BT/(R₀² D)` -/
+theorem active_recovers_generating_sensitivity (m : Mdl ℝ) (dr : Drive ℝ) (g fc D sfc sD R0 : ℝ)
+    (hR : 0 < R0) (hdf : dr.df ≠ 0) (hP : 0 < m.theoreticalPower dr fc)
+    (hmax : dr.maxP = m.physicalPsd dr.freq fc D * g + m.theoreticalPower dr fc / (R0 ^ 2 * dr.df)) :
+    ∀ r, r = activeResults m dr g fc D sfc sD →
+    r.rd * 1e-6 = R0 ∧ r.measured = kT m.o.temp / (R0 ^ 2 * D) ∧
+    r.kappa * 1e-3 = 2 * Real.pi * (kT m.o.temp / (R0 ^ 2 * D)) * fc := by
+  rintro r rfl
+  obtain ⟨hp, ht, hrd, hg, hk, -⟩ := active_fields m dr g fc D sfc sD
+  have hpe : (activeResults m dr g fc D sfc sD).pExp = m.theoreticalPower dr fc / R0 ^ 2 := by
+    rw [hp, hmax]; field_simp; ring
+  have hratio : (activeResults m dr g fc D sfc sD).pTheory / (activeResults m dr g fc D sfc sD).pExp
+      = R0 ^ 2 := by
+    rw [hpe, ht]; field_simp
+  have hs : Real.sqrt ((activeResults m dr g fc D sfc sD).pTheory
+      / (activeResults m dr g fc D sfc sD).pExp) = R0 := by
+    rw [hratio, Real.sqrt_sq hR.le]
+  have h1 : (activeResults m dr g fc D sfc sD).rd * 1e-6 = R0 := by rw [hrd, hs]; ring
+  have h2 : (activeResults m dr g fc D sfc sD).measured = kT m.o.temp / (R0 ^ 2 * D) := by
+    rw [hg, hs]; ring_nf
+  refine ⟨h1, h2, ?_⟩
+  rw [hk, h2]; ring
+example : (0:ℝ) < 1 ∧ drive₀.df ≠ 0 ∧ 0 < (build oBulk).theoreticalPower drive₀ 1 := by
+  refine ⟨one_pos, by simp [drive₀], ?_⟩
+  simp [Mdl.theoreticalPower, build, oBulk, drivingPowerLorentzian, drive₀]
+  norm_num
+
+/-! ## The glue of `calibrate_force` -/
+
+/-- `calibrate_force` accepts its keyword arguments exactly when: no axial and no carried-over drag
+    with active calibration, no fixed diode parameter with a fast sensor, and active calibration
+    comes with driving data and a positive frequency guess.  Every rejection is a `ValueError`. -/
+theorem calibrate_force_accepts_iff (a : CalibArgs ℝ) :
+    (calibValidate a = none ↔
+      (¬(a.active = true ∧ a.o.axial = true) ∧ ¬(a.active = true ∧ ∃ g, a.drag = some g ∧ g ≠ 0) ∧
+       ¬((a.fixedD.isSome = true ∨ a.fixedA.isSome = true) ∧ a.o.fast = true) ∧
+       (a.active = true → a.hasDriving = true ∧ ∃ g, a.guess = some g ∧ 0 < g))) ∧
+    (∀ e, calibValidate a = some e → e = .value) := by
+  have hd := optTruthy_real a.drag
+  constructor
+  · unfold calibValidate
+    rcases a with ⟨o, drag, fd, al, active, hasDriving, guess⟩
+    simp only at hd ⊢
+    split_ifs with c1 c2 c3 c4 c5
+    · simp_all
+    · simp_all
+    · simp_all
+    · simp_all
+    · cases guess with
+      | none => simp_all
+      | some v =>
+        simp_all [RealLike.lt, zero_lit]
+        rcases c5.2 with h | h
+        · have : v = 0 := by
+            by_contra hne
+            have := (truthy_real v).mpr hne
+            rw [h] at this; cases this
+          exact this.le
+        · exact h.le
+    · cases guess with
+      | none => simp_all
+      | some v =>
+        simp_all [RealLike.lt, truthy_real, zero_lit]
+        intro h
+        exact lt_of_le_of_ne (c5 h).2 (Ne.symm (c5 h).1)
+  · intro e he
+    unfold calibValidate at he
+    split_ifs at he <;> simp_all
+noncomputable def args₀ : CalibArgs ℝ where
+  o := oBulk
+  drag := none
+  fixedD := none
+  fixedA := none
+  active := false
+  hasDriving := false
+  guess := none
+example : calibValidate args₀ = none := by
+  simp [calibValidate, args₀, optTruthy]
+
+/-- what an accepted call has built when the fit starts: the constructor's model (with
+    `axial=False` for active calibration), the carried-over drag if truthy, and the filter:
+    `FixedDiodeModel` iff a fixed parameter was given, `NoFilter` iff fast sensor, else `DiodeModel` -/
+theorem calibrate_force_setup (a : CalibArgs ℝ) (m : Mdl ℝ) (flt : Filt ℝ)
+    (h : calibSetup a = .ok (m, flt)) :
+    calibValidate a = none ∧ flt = chooseFilter a ∧ flt.validate = none ∧
+    (∃ m0, mkModel (if a.active then { a.o with axial := false } else a.o) = .ok m0 ∧
+      m = if optTruthy a.drag then m0.setDrag (a.drag.getD 0.0) else m0) ∧
+    (a.o.fast = true → flt = .noFilter) ∧ (a.o.fast = false → flt ≠ .noFilter) := by
+  unfold calibSetup at h
+  split at h
+  · cases h
+  · rename_i hv
+    split at h
+    · cases h
+    · rename_i m0 hm0
+      cases hfv : (chooseFilter a).validate with
+      | some e => simp [hfv] at h
+      | none =>
+        simp only [hfv] at h
+        injection h with h
+        injection h with h1 h2
+        refine ⟨hv, h2.symm, by rw [← h2]; exact hfv, ⟨m0, hm0, h1.symm⟩, ?_, ?_⟩
+        · intro hf
+          have hacc := ((calibrate_force_accepts_iff a).1.mp hv).2.2.1
+          rw [← h2]
+          unfold chooseFilter
+          by_cases hfix : (a.fixedD.isSome || a.fixedA.isSome) = true
+          · exact absurd ⟨by simpa using hfix, hf⟩ hacc
+          · simp [hfix, hf]
+        · intro hf
+          rw [← h2]
+          unfold chooseFilter
+          by_cases hfix : (a.fixedD.isSome || a.fixedA.isSome) = true <;> simp [hfix, hf]
+example : ∃ m flt, calibSetup args₀ = .ok (m, flt) := by
+  refine ⟨build oBulk, .diode, ?_⟩
+  have hv : calibValidate args₀ = none := by simp [calibValidate, args₀, optTruthy]
+  have hm : mkModel (if args₀.active = true then { args₀.o with axial := false } else args₀.o)
+      = .ok (build oBulk) := by simp [args₀, oBulk_ok]
+  simp only [calibSetup, hv, hm]
+  simp [args₀, optTruthy, chooseFilter, Filt.validate, oBulk]
+
+/-- ORDER of errors: the `ValueError`s of `calibrate_force` come before the constructor's, e.g.
+    active + axial is a `ValueError` even where the constructor alone (hydro + axial) would raise
+    `NotImplementedError` -/
+theorem calibrate_force_value_error_first (a : CalibArgs ℝ) (h : a.active = true)
+    (hax : a.o.axial = true) : calibSetup a = .error .value := by
+  simp [calibSetup, calibValidate, h, hax]
+example : (true = true) := rfl
+
+/-- RECOVERY on the whole estimator (the function the `c11.drive` op runs): if the magnitude
+    spectrum handed to it is the Gaussian `K·exp(−½((f − μ)/σ)²)` on a strictly increasing
+    frequency axis, the peak bin has both neighbours, and `μ` lies inside the search range, then the
+    estimator answers with the frequency `μ` and the amplitude `K·σ·√(2π)·δ` -/
+theorem driving_estimator_gaussian_spectrum (freqs : List ℝ) (K mu sigma g s delta npts tp sw sw2 : ℝ)
+    (m : Nat) (hsort : freqs.Pairwise (· < ·)) (hK : 0 < K) (hs : 0 < sigma)
+    (hlo : g - s ≤ mu) (hhi : mu ≤ g + s)
+    (hpk : peakBin freqs (freqs.map fun f => K * Real.exp (-(1 / 2) * ((f - mu) / sigma) ^ 2)) g s = some m)
+    (hm0 : 0 < m) (hm1 : m + 1 < freqs.length) :
+    ∃ r, estimateDrive freqs (freqs.map fun f => K * Real.exp (-(1 / 2) * ((f - mu) / sigma) ^ 2))
+        g s delta npts tp sw sw2 = .ok r ∧
+      r.freq = mu ∧ r.amp = K * (sigma * Real.sqrt (2 * Real.pi)) * delta := by
+  have h0 : m - 1 < freqs.length := by omega
+  have h1 : m < freqs.length := by omega
+  have hlt := List.pairwise_iff_getElem.mp hsort
+  have d01 : freqs[m - 1] ≠ freqs[m] := (hlt (m - 1) m h0 h1 (by omega)).ne
+  have d12 : freqs[m] ≠ freqs[m + 1] := (hlt m (m + 1) h1 hm1 (by omega)).ne
+  have d02 : freqs[m - 1] ≠ freqs[m + 1] := (hlt (m - 1) (m + 1) h0 hm1 (by omega)).ne
+  obtain ⟨r, hr, hf, ha⟩ := drivePost_gaussian' m freqs[m - 1] freqs[m] freqs[m + 1] K mu sigma g s delta
+    npts tp sw sw2 d01 d12 d02 hK hs hlo hhi
+  refine ⟨r, ?_, hf, ha⟩
+  unfold estimateDrive
+  rw [hpk]
+  simp only [List.getElem?_map, List.getElem?_eq_getElem h0,
+    List.getElem?_eq_getElem h1, List.getElem?_eq_getElem hm1, Option.map_some]
+  rw [if_neg (by omega : ¬ m = 0)]
+  exact hr
+example : ([1, 2, 3] : List ℝ).Pairwise (· < ·) ∧ (0:Nat) < 1 ∧ 1 + 1 < ([1, 2, 3] : List ℝ).length := by
+  refine ⟨by simp [List.pairwise_cons]; norm_num, by decide, by decide⟩
+
+example : peakBin ([1, 2, 3] : List ℝ)
+    (([1, 2, 3] : List ℝ).map fun f => 1 * Real.exp (-(1 / 2) * ((f - 2) / 1) ^ 2)) 2 5 = some 1 := by
+  have hm : searchMask ([1, 2, 3] : List ℝ) 2 5 = [true, true, true] := by
+    simp [searchMask, RealLike.lt]; norm_num
+  have hc : Real.exp (-(1 / 2) * (((2:ℝ) - 2) / 1) ^ 2) = 1 := by norm_num
+  simp only [peakBin, hm, List.map_cons, List.map_nil, firstTrue, maskSelect, Option.map_some, argmax,
+    argmaxGo, RealLike.lt, one_mul, hc]
+  simp
+  norm_num
+
+/-! ## The robust loss (`loss_function="lorentzian"`) and `ScaledModel` -/
+
+/-- the robust loss is non-negative and vanishes exactly on a pointwise fit -/
+theorem robust_loss_zero_iff (psd : ℝ → ℝ) (n : ℝ) (hn : 0 < n) (fs ps : List ℝ)
+    (hp : ∀ x ∈ fs.zip ps, psd x.1 ≠ 0) :
+    0 ≤ lorentzianLoss psd n fs ps ∧
+    (lorentzianLoss psd n fs ps = 0 ↔ ∀ x ∈ fs.zip ps, psd x.1 = x.2) :=
+  ⟨lloss_nonneg' psd n fs ps, lloss_zero_iff' psd n hn fs ps hp⟩
+example : (0:ℝ) < 20 ∧ ∀ x ∈ [(1:ℝ), 2].zip [(3:ℝ), 4], (fun _ : ℝ => (1:ℝ)) x.1 ≠ 0 := by
+  refine ⟨by norm_num, ?_⟩
+  intro x _; simp
+
+/-- RECOVERY under the robust loss: on a noise-free Lorentzian × diode spectrum the generating
+    parameters give loss 0, and they are the only parameters of the ordered box that do -/
+theorem robust_loss_recovery_unique (fs : List ℝ)
+    (n fc D fd al fc' D' fd' al' f1 f2 f3 f4 : ℝ) (hn : 0 < n)
+    (hfc : 0 < fc) (hord : fc < fd) (hD : 0 < D) (hal : 0 ≤ al) (hal1 : al < 1)
+    (hfc' : 0 < fc') (hord' : fc' < fd') (hD' : 0 < D') (hal' : 0 ≤ al')
+    (m1 : f1 ∈ fs) (m2 : f2 ∈ fs) (m3 : f3 ∈ fs) (m4 : f4 ∈ fs)
+    (h12 : f1 ^ 2 ≠ f2 ^ 2) (h13 : f1 ^ 2 ≠ f3 ^ 2) (h14 : f1 ^ 2 ≠ f4 ^ 2) (h23 : f2 ^ 2 ≠ f3 ^ 2)
+    (h24 : f2 ^ 2 ≠ f4 ^ 2) (h34 : f3 ^ 2 ≠ f4 ^ 2) :
+    lorentzianLoss (fun f => lorentzDiodePsd f fc D fd al) n fs
+      (fs.map fun f => lorentzDiodePsd f fc D fd al) = 0 ∧
+    (lorentzianLoss (fun f => lorentzDiodePsd f fc' D' fd' al') n fs
+      (fs.map fun f => lorentzDiodePsd f fc D fd al) = 0 →
+      fc' = fc ∧ D' = D ∧ fd' = fd ∧ al' = al) := by
+  have hfd : 0 < fd := by linarith
+  have hfd' : 0 < fd' := by linarith
+  constructor
+  · rw [lloss_zero_iff' _ n hn]
+    · intro x hx; exact ((zip_map_snd _ fs x hx).2).symm
+    · intro x _; exact (ld_pos _ fc D fd al hfc hD hfd).ne'
+  · intro h0
+    have hpt := (lloss_zero_iff' _ n hn fs _ (by
+      intro x _; exact (ld_pos _ fc' D' fd' al' hfc' hD' hfd').ne')).mp h0
+    have key : ∀ f ∈ fs, lorentzDiodePsd f fc' D' fd' al' = lorentzDiodePsd f fc D fd al := by
+      intro f hf
+      exact hpt _ (mem_zip_map (fun f => lorentzDiodePsd f fc D fd al) fs f hf)
+    exact ld_identifiable' fc D fd al fc' D' fd' al' f1 f2 f3 f4 hfc hord hD hal hal1 hfc' hord' hal'
+      h12 h13 h14 h23 h24 h34 (key f1 m1) (key f2 m2) (key f3 m3) (key f4 m4)
+example : (0:ℝ) < 20 ∧ (0:ℝ) < 1 ∧ (1:ℝ) < 2 ∧ (0:ℝ) ≤ 1 / 2 ∧ (1:ℝ) / 2 < 1 ∧ (0:ℝ) ∈ [(0:ℝ), 1, 2, 3] ∧
+    (0:ℝ) ^ 2 ≠ 1 ^ 2 := by
+  refine ⟨by norm_num, by norm_num, by norm_num, by norm_num, by norm_num, by simp, by norm_num⟩
+
+/-- `ScaledModel`: the optimiser works on parameters divided by the initial guess; its start
+    vector `np.ones(k)` IS the initial guess, and scaling is element-wise -/
+theorem scaled_model_start (scale : List ℝ) :
+    scaleParams (List.replicate scale.length 1) scale = scale ∧
+    ∀ scaled : List ℝ, (scaleParams scaled scale).length = min scaled.length scale.length := by
+  constructor
+  · induction scale with
+    | nil => rfl
+    | cons x t ih =>
+      simp only [List.length_cons, List.replicate_succ, scaleParams, List.zipWith_cons_cons, one_mul]
+      exact congrArg _ ih
+  · intro scaled; simp [scaleParams]
+
+/-! ## Recovery for the hydrodynamically correct spectrum (fast sensor / fully fixed filter) -/
+
+/-- the hydrodynamically correct spectrum is `D·A(f)/((f_c + B(f))² + C(f))` with `A = Re γ/π²`,
+    `B = f·(Im γ − f/f_m)`, `C = (f·Re γ)²` — functions of frequency that do not depend on the fitted
+    parameters (`γ` = `calculate_complex_drag`, `f_m` = `calculate_dissipation_frequency`) -/
+theorem hydro_spectrum_form (f fc D gamma0 r rhoS rhoB : ℝ) (dist : Option ℝ) :
+    hydroPsd f fc D gamma0 r rhoS rhoB dist
+      = ratPsd (fun f => (complexDrag f gamma0 rhoS r dist).1 / Real.pi ^ 2)
+          (fun f => f * ((complexDrag f gamma0 rhoS r dist).2 - f / dissipationFrequency gamma0 r rhoB))
+          (fun f => (f * (complexDrag f gamma0 rhoS r dist).1) ^ 2) f fc D :=
+  hydroPsd_form f fc D gamma0 r rhoS rhoB dist
+
+/-- … and it is what the `c11.chi2` op sums over for a hydrodynamic model without filter; without
+    a surface `Re γ = 1 + √(f/f_ν) ≥ 1`, so `A ≠ 0` -/
+theorem psdOr_hydro_noFilter (m : Mdl ℝ) (hh : m.o.hydro = true) (fc D nan : ℝ) :
+    (m.psdOr .noFilter fc D [] nan = fun f =>
+      hydroPsd f fc D m.gamma0Psd (m.o.d * 1e-6 / 2) (m.o.rhoSample.getD 997) m.o.rhoBead
+        (m.o.dist.map (· * 1e-6)) * 1) ∧
+    ∀ f g rho r : ℝ, 1 ≤ (complexDrag f g rho r none).1 := by
+  constructor
+  · funext f
+    simp only [Mdl.psdOr, Mdl.psd, Filt.eval, Mdl.physicalPsd, hh, if_true, one_lit]
+    norm_num
+  · intro f g rho r
+    rw [complexDrag_bulk_re]
+    have := Real.sqrt_nonneg (f / (g / (6 * Real.pi * rho * r) / (Real.pi * (r * r))))
+    linarith
+example : (build oHydro).o.hydro = true := rfl
+
+/-- RECOVERY for every spectrum of that form: on a noise-free spectrum the objective vanishes at
+    the generating `(f_c, D)`, and at no other `(f_c', D')` as soon as the spectrum holds three
+    frequencies whose rows `(B² + C, B, 1)` are linearly independent (a condition on the known
+    functions only; the harness evaluates it on every hydrodynamic fast-sensor fit it explores) -/
+theorem rational_spectrum_recovery_unique (A B C : ℝ → ℝ) (fs : List ℝ) (n fc D fc' D' f1 f2 f3 : ℝ)
+    (hn : 0 < n) (hD : D ≠ 0) (hA : ∀ f ∈ fs, A f ≠ 0) (hC : ∀ f ∈ fs, 0 < C f)
+    (m1 : f1 ∈ fs) (m2 : f2 ∈ fs) (m3 : f3 ∈ fs)
+    (hdet : (B f1 ^ 2 + C f1) * (B f2 - B f3) - B f1 * ((B f2 ^ 2 + C f2) - (B f3 ^ 2 + C f3))
+      + ((B f2 ^ 2 + C f2) * B f3 - (B f3 ^ 2 + C f3) * B f2) ≠ 0) :
+    chi2 (fun f => ratPsd A B C f fc D) n fs (fs.map fun f => ratPsd A B C f fc D) = 0 ∧
+    (chi2 (fun f => ratPsd A B C f fc' D') n fs (fs.map fun f => ratPsd A B C f fc D) = 0 →
+      fc' = fc ∧ D' = D) := by
+  have hne : ∀ f ∈ fs, ratPsd A B C f fc D ≠ 0 := by
+    intro f hf
+    unfold ratPsd
+    have := hC f hf
+    exact div_ne_zero (mul_ne_zero hD (hA f hf)) (by positivity)
+  refine ⟨(fit_objective_minimised_by_generating _ (fun f => ratPsd A B C f fc D) n hn fs hne).1, ?_⟩
+  intro hchi
+  have hpt := (chi2_zero_iff' _ n hn fs _ (by
+    intro x hx
+    rw [(zip_map_snd _ fs x hx).2]
+    exact hne _ (zip_map_snd _ fs x hx).1)).mp hchi
+  have key : ∀ f ∈ fs, ratPsd A B C f fc' D' = ratPsd A B C f fc D := by
+    intro f hf
+    have := hpt _ (mem_zip_map (fun f => ratPsd A B C f fc D) fs f hf)
+    simpa using this
+  exact ratPsd_identifiable' A B C fc D fc' D' f1 f2 f3 hD ⟨hA _ m1, hA _ m2, hA _ m3⟩
+    ⟨hC _ m1, hC _ m2, hC _ m3⟩ hdet (key f1 m1) (key f2 m2) (key f3 m3)
+example : ((fun f : ℝ => f) 0 ^ 2 + 1) * ((fun f : ℝ => f) 1 - (fun f : ℝ => f) 2)
+    - (fun f : ℝ => f) 0 * (((fun f : ℝ => f) 1 ^ 2 + 1) - ((fun f : ℝ => f) 2 ^ 2 + 1))
+    + (((fun f : ℝ => f) 1 ^ 2 + 1) * (fun f : ℝ => f) 2 - ((fun f : ℝ => f) 2 ^ 2 + 1) * (fun f : ℝ => f) 1) ≠ 0
+    ∧ (0:ℝ) ∈ [(0:ℝ), 1, 2] := by
+  refine ⟨by norm_num, by simp⟩
+
+/-- the same function of frequency for every shape of `FixedDiodeModel` -/
+theorem psdOr_fixed_diode_shapes (m : Mdl ℝ) (hh : m.o.hydro = false) (fc D fd al nan : ℝ) :
+    m.psdOr (.fixed (some fd) (some al)) fc D [] nan = (fun f => lorentzDiodePsd f fc D fd al) ∧
+    m.psdOr (.fixed (some fd) none) fc D [al] nan = (fun f => lorentzDiodePsd f fc D fd al) ∧
+    m.psdOr (.fixed none (some al)) fc D [fd] nan = (fun f => lorentzDiodePsd f fc D fd al) ∧
+    m.psdOr (.fixed none none) fc D [fd, al] nan = (fun f => lorentzDiodePsd f fc D fd al) := by
+  refine ⟨?_, ?_, ?_, ?_⟩ <;> funext f
+  · simp [Mdl.psdOr, (spectrum_model_lorentz_diode m hh f fc D fd al).2.1]
+  · simp [Mdl.psdOr, (spectrum_model_lorentz_diode m hh f fc D fd al).2.2.1]
+  · simp [Mdl.psdOr, (spectrum_model_lorentz_diode m hh f fc D fd al).2.2.2.1]
+  · simp [Mdl.psdOr, (spectrum_model_lorentz_diode m hh f fc D fd al).2.2.2.2.1]
+example : (build oBulk).o.hydro = false := rfl
+
+/-- CAPSTONE, in the words of the property: a block-averaged spectrum has a strictly increasing
+    positive frequency axis; if it has at least four bins, was generated (noise-free) by a
+    non-hydrodynamic model with `(f_c, D, f_diode, α)` in the conditioning box
+    (`0 < f_c ≤ 0.3·f_diode`, `0 ≤ α ≤ 0.8`, `D > 0`), then within that box the objective of the fit
+    is zero at the generating parameters and at no others -/
+theorem fit_recovery_in_conditioning_box (m : Mdl ℝ) (hh : m.o.hydro = false) (fs : List ℝ)
+    (n fc D fd al fc' D' fd' al' nan : ℝ) (hn : 0 < n)
+    (hsort : fs.Pairwise (· < ·)) (hpos : ∀ f ∈ fs, 0 < f) (hlen : 4 ≤ fs.length)
+    (hfc : 0 < fc) (hbox : fc ≤ 0.3 * fd) (hD : 0 < D) (hal : 0 ≤ al) (hal1 : al ≤ 0.8)
+    (hfc' : 0 < fc') (hbox' : fc' ≤ 0.3 * fd') (hal' : 0 ≤ al') :
+    chi2 (m.psdOr .diode fc D [fd, al] nan) n fs (fs.map (m.psdOr .diode fc D [fd, al] nan)) = 0 ∧
+    (chi2 (m.psdOr .diode fc' D' [fd', al'] nan) n fs (fs.map (m.psdOr .diode fc D [fd, al] nan)) = 0 →
+      fc' = fc ∧ D' = D ∧ fd' = fd ∧ al' = al) := by
+  have hfd : fc < fd := by
+    have : 0 < fd := by nlinarith
+    nlinarith
+  have hfd' : fc' < fd' := by
+    have : 0 < fd' := by nlinarith
+    nlinarith
+  have hlt := List.pairwise_iff_getElem.mp hsort
+  have sq_ne : ∀ i j (hi : i < fs.length) (hj : j < fs.length), i < j → fs[i] ^ 2 ≠ fs[j] ^ 2 := by
+    intro i j hi hj hij
+    have h1 := hlt i j hi hj hij
+    have h0 := hpos _ (List.getElem_mem hi)
+    have : fs[i] ^ 2 < fs[j] ^ 2 := pow_lt_pow_left₀ h1 h0.le two_ne_zero
+    exact this.ne
+  exact fit_recovery_unique_model m hh fs n fc D fd al fc' D' fd' al' fs[0] fs[1] fs[2] fs[3] nan hn
+    hfc hfd hD hal (by norm_num at hal1 ⊢; linarith) hfc' hfd' hal'
+    (List.getElem_mem _) (List.getElem_mem _) (List.getElem_mem _) (List.getElem_mem _)
+    (sq_ne 0 1 _ _ (by decide)) (sq_ne 0 2 _ _ (by decide)) (sq_ne 0 3 _ _ (by decide))
+    (sq_ne 1 2 _ _ (by decide)) (sq_ne 1 3 _ _ (by decide)) (sq_ne 2 3 _ _ (by decide))
+example : ([1, 2, 3, 4] : List ℝ).Pairwise (· < ·) ∧ (∀ f ∈ ([1, 2, 3, 4] : List ℝ), 0 < f) ∧
+    4 ≤ ([1, 2, 3, 4] : List ℝ).length ∧ (1:ℝ) ≤ 0.3 * 10 ∧ (0.5:ℝ) ≤ 0.8 := by
+  refine ⟨by simp [List.pairwise_cons]; norm_num, ?_, by decide, by norm_num, by norm_num⟩
+  intro f hf
+  simp at hf
+  rcases hf with rfl | rfl | rfl | rfl <;> norm_num
+
+/-- `_fit_power_spectra` returns `np.abs` of the optimiser's solution: this never changes the fitted
+    spectrum, which depends on `f_c`, `f_diode`, `α` only through their squares (`D` is not
+    symmetric — it is kept non-negative by the bound `D ≥ 0`) -/
+theorem abs_of_solution_keeps_spectrum (f fc D fd al : ℝ) :
+    lorentzDiodePsd f |fc| D |fd| |al| = lorentzDiodePsd f fc D fd al ∧
+    lorentzianPsd f |fc| D = lorentzianPsd f fc D := by
+  have h1 : |fc| * |fc| = fc * fc := abs_mul_abs_self fc
+  have h2 : |al| * |al| = al * al := abs_mul_abs_self al
+  have h3 : f / |fd| * (f / |fd|) = f / fd * (f / fd) := by
+    rw [div_mul_div_comm, div_mul_div_comm, abs_mul_abs_self]
+  simp only [lorentzDiodePsd, lorentzianPsd, gDiode, h1, h2, h3, and_self]
 
 end Verif.C11
